@@ -97,7 +97,9 @@ public:
     /// Sets the number of channels.
     void channels(std::size_t channels)
     {
-        if (first_channel_weights_.empty())
+        // a checkpoint read from a stream that has results does not store the first channel weights
+        // (they are recorded in its first result); do not replace them with the default
+        if (this->results().empty() && first_channel_weights_.empty())
         {
             first_channel_weights_.assign(channels, T(1.0) / channels);
         }
